@@ -5,14 +5,14 @@ Require Import Generated PyBase PyStr Lex Symbols ParseEq GLex GNorm Graph Graph
 Open Scope string_scope.
 
 Example ex_reparse_hyps :
-  dq_ok canon ex_fix_q = true /\ neq_wf ex_fix_q = true /\ no_function_named "C" (nrhs ex_fix_q) = true /\
+  dq_ok canon ex_fix_q = true /\ neq_wf ex_fix_q = true /\
   exists syms, parse_equation_M (denorm_text canon ex_fix_q) = POk syms /\
     match symbols_to_graph_M syms with
     | Ret g => filter varlike_id (in_edges g "C[t+1]") = ["alpha_1[t]"; "YD[t+2]"; "H[t-1]"; "X['2000']"]
     | Raise _ => False
     end.
 Proof.
-  split; [vm_compute; reflexivity|]. split; [vm_compute; reflexivity|]. split; [vm_compute; reflexivity|].
+  split; [vm_compute; reflexivity|]. split; [vm_compute; reflexivity|].
   eexists. split; [vm_compute; reflexivity|]. vm_compute. reflexivity.
 Qed.
 
@@ -108,4 +108,40 @@ Proof.
   eexists. split; [vm_compute; reflexivity|]. split; [vm_compute; reflexivity|]. split.
   - intros q H. vm_compute in H. inversion H; subst q. split; vm_compute; reflexivity.
   - vm_compute. repeat split; reflexivity.
+Qed.
+
+(* ---- finding #19 repaired (b45daa1): a name used as a function and as a variable in one equation is rejected in either
+   order; repeated calls of one function are fine; the series of the accepted script hold every variable-like in-edge ---- *)
+Require Import GraphSeriesFacts.
+Example ex_function_variable_clash :
+  parse_model_nocheck "Y = exp + exp(X)" = PErr SymbolError /\ parse_model_nocheck "Y = exp(X) + exp" = PErr SymbolError /\
+  parse_model_nocheck "Y = max(X, 1) * {max}" = PErr SymbolError /\
+  exists syms, parse_model_nocheck "Y = exp(X) + exp(Z[-1]) * {a}" = POk syms /\
+    map (fun s => (sname s, stype s)) syms = [(Some "Y", TEndogenous); (Some "exp", TFunction); (Some "X", TExogenous); (Some "Z", TExogenous); (Some "a", TParameter)] /\
+    match symbols_to_graph_M syms with
+    | Ret g => in_edges g "Y[t]" = ["exp"; "X[t]"; "Z[t-1]"; "a[t]"] /\ filter varlike_id (in_edges g "Y[t]") = ["X[t]"; "Z[t-1]"; "a[t]"]
+    | Raise _ => False
+    end.
+Proof.
+  split; [vm_compute; reflexivity|]. split; [vm_compute; reflexivity|]. split; [vm_compute; reflexivity|].
+  eexists. split; [vm_compute; reflexivity|]. split; [vm_compute; reflexivity|]. vm_compute. split; reflexivity.
+Qed.
+
+(* ---- the normal forms of the two statements above, written back in the statement syntax, are in the domain of the fixed-point
+   theorem (GraphCanonText.normal_form_dq_ok at work); the parameter {a} has become the plain name a ---- *)
+Require Import GraphCanonText.
+Example ex_normal_form_reparses :
+  denorm_text canon (nrm_q ex_wq1) = "Y[0] = X[-1] + max(Z[0] , a[0])" /\
+  denorm_text canon (nrm_q ex_wq2) = "Z[0] = Y[0] < max(X[+1]) if Y[0] else 1" /\
+  dq_ok canon (nrm_q ex_wq1) = true /\ dq_ok canon (nrm_q ex_wq2) = true /\
+  dq_ok_ws ex_src_lay ex_wq1 = true /\ sep_ok ex_src_lay (nrhs ex_wq1) = true /\
+  exists s1 s2, parse_equation_M (denorm_text ex_src_lay ex_wq1) = POk s1 /\ parse_equation_M (denorm_text canon (nrm_q ex_wq1)) = POk s2 /\
+    map (fun s => (sname s, sequation s, scode s)) (filter (fun s => match sequation s with Some _ => true | None => false end) s1)
+    = map (fun s => (sname s, sequation s, scode s)) (filter (fun s => match sequation s with Some _ => true | None => false end) s2) /\
+    map (fun s => (sname s, stype s)) s1 <> map (fun s => (sname s, stype s)) s2.
+Proof.
+  split; [vm_compute; reflexivity|]. split; [vm_compute; reflexivity|]. split; [vm_compute; reflexivity|]. split; [vm_compute; reflexivity|].
+  split; [vm_compute; reflexivity|]. split; [vm_compute; reflexivity|].
+  eexists. eexists. split; [vm_compute; reflexivity|]. split; [vm_compute; reflexivity|]. split; [vm_compute; reflexivity|].
+  vm_compute. discriminate.
 Qed.
